@@ -326,6 +326,13 @@ func (p *TermPool) arith(op string, a, b *Term) *Term {
 		if bok && bv.Sign() == 0 {
 			return a
 		}
+		// a + (x - a) == x
+		if b.Op == "-" && b.Args[1] == a {
+			return b.Args[0]
+		}
+		if a.Op == "-" && a.Args[1] == b {
+			return a.Args[0]
+		}
 	case "-":
 		if bok && bv.Sign() == 0 {
 			return a
@@ -782,4 +789,59 @@ func FreeVars(ts ...*Term) []*Term {
 		}
 	}
 	return r
+}
+
+// RebaseQuant makes the index terms of a quantified body trigger-friendly: when the bound variable i
+// occurs as select(A, off + i) with a fixed offset term, i is replaced by (i - off) throughout, so the
+// select becomes select(A, i) (absolute position) and e-matching can instantiate it from ground selects.
+func (p *TermPool) RebaseQuant(vars []*Term, body *Term) *Term {
+	for _, v := range vars {
+		counts := map[*Term]int{}
+		seen := map[*Term]bool{}
+		var rec func(t *Term)
+		rec = func(t *Term) {
+			if seen[t] {
+				return
+			}
+			seen[t] = true
+			if t.Op == "select" {
+				ix := t.Args[1]
+				if ix.Op == "+" && len(ix.Args) == 2 {
+					if ix.Args[1] == v && !containsVar(ix.Args[0], vars) {
+						counts[ix.Args[0]]++
+					} else if ix.Args[0] == v && !containsVar(ix.Args[1], vars) {
+						counts[ix.Args[1]]++
+					}
+				}
+			}
+			for _, a := range t.Args {
+				rec(a)
+			}
+		}
+		rec(body)
+		var best *Term
+		for off, n := range counts {
+			if best == nil || n > counts[best] || (n == counts[best] && off.id < best.id) {
+				best = off
+			}
+		}
+		if best != nil {
+			body = p.Subst(body, map[*Term]*Term{v: p.Sub(v, best)})
+		}
+	}
+	return body
+}
+
+func containsVar(t *Term, vars []*Term) bool {
+	for _, v := range vars {
+		if t == v {
+			return true
+		}
+	}
+	for _, a := range t.Args {
+		if containsVar(a, vars) {
+			return true
+		}
+	}
+	return false
 }
